@@ -151,7 +151,8 @@ def run(tier):
     run_population(ctx, eitems, "expressions", rnd, 1000 if tier == "quick" else 10000)
     citems = [(txt, "corpus:" + name) for name, txt in corpus.preprocessed(None)]
     run_population(ctx, citems, "corpus", rnd, len(citems))
-    generator_traces(ctx, rnd, rnd.sample(items, 400 if tier == "quick" else 5000) + citems)
+    from .c12 import GEN_PROGRAMS
+    generator_traces(ctx, rnd, rnd.sample(items, 400 if tier == "quick" else 5000) + citems + [(g, "indent") for g in GEN_PROGRAMS])
     ctx.sample(dict(source=items[len(items) // 3][0]))
     ctx.assumptions += ["the matcher is applied to programs inside its domain (no _Atomic(type-name) with declarator)"]
     return ctx.finish()
